@@ -765,8 +765,30 @@ def check_C14(tier, seed, replay=None):
         for rep in ("star", "plus"):
             for in_rule in (False, True):
                 probe(lambda g: many_throws(g, rec_kind, rep, in_rule))
+    # mutually recursive rules, a label thrown in only one of them, recovery operators guarding either rule (whatever the
+    # generator works out per rule about "the labels that can be thrown below" must hold through the cycle)
+    def mutual_throw(g, swap, thrower, outer):
+        # rule 2 = Value <- List / 'a' / throw ; rule 3 = List <- 'x' Value ('b' Value)* 'x'
+        th = lambda: g.throw("la")
+        value = g.choice([g.ref(3), g.action(g.lit([F.A]))] + ([th()] if thrower == 2 else []))
+        lst = g.action(g.seq([g.lit([X]), g.label(g.ref(2)), g.un("star", g.seq([g.lit([F.B]), g.ref(2)])), g.choice([g.lit([X])] + ([th()] if thrower == 3 else []))]))
+        skip = lambda: g.action(g.un("opt", g.lit([F.B])))
+        ops = [g.recover(g.ref(2), skip(), ["la"]), g.recover(g.ref(3), skip(), ["la"])]
+        if swap:
+            ops.reverse()
+        body = g.seq([ops[0], g.un("opt", ops[1])]) if outer == 0 else g.choice([g.seq([ops[0], g.lit([F.A])]), ops[1]])
+        g.rules = [g.action(g.seq([g.label(body), g.un("star", g.any())])), value, lst]
+    for swap in (False, True):
+        for thrower in (2, 3):
+            for outer in (0, 1):
+                probe(lambda g: mutual_throw(g, swap, thrower, outer))
     cfg = F.RandCfg(depth=depth, maxrules=3, throw=True, preds=True, blocks=True, errs=0.1)
     groups += F.random_groups(seed, n, cfg, gi0=len(groups) + 1)
+    # right and mutual recursion under recovery operators (always under the budget: see add_rec)
+    recg = F.random_groups(seed + 9, n // 4, F.RandCfg(depth=depth, maxrules=3, throw=True, recursive=True, blocks=True), gi0=len(groups) + 1)
+    for g in recg:
+        g.tags.add("rec")
+    groups += recg
     cfg2 = F.RandCfg(depth=depth, maxrules=3, throw=True, state=True, cloner=True, blocks=True)
     groups += F.random_groups(seed + 7, n // 2, cfg2, gi0=len(groups) + 1)
     inputs = F.all_inputs([F.A, F.B, X], maxlen)
@@ -775,6 +797,8 @@ def check_C14(tier, seed, replay=None):
     bp14 = budget_plan(len(inputs))
 
     def plan14(g):
+        if "rec" in g.tags:
+            return [(ii, 1) for ii in range(len(inputs))]
         pl = bp14(g)
         if not g.maydiverge and g.gi % 3 == 0:
             pl = pl + [(ii, 2) for ii in range(0, len(inputs), 2)]     # Debug(true): the T2 traces
@@ -784,7 +808,7 @@ def check_C14(tier, seed, replay=None):
     t2_bind(run, 1500 if tier == "quick" else 15000)
     # the same semantics must hold for parsers generated with -optimize-grammar (values compared after normalisation)
     run_o = Run("C14", tier, seed)
-    d_o, tot_o = run_o.execute(groups, inputs, options, bp14, [["-optimize-grammar"]], cmp=dict(norm=True, errs=False),
+    d_o, tot_o = run_o.execute(groups, inputs, options, lambda g: [(ii, 1) for ii in range(len(inputs))] if "rec" in g.tags else bp14(g), [["-optimize-grammar"]], cmp=dict(norm=True, errs=False),
                                gen_flags_for=lambda pk: ["-alternate-entrypoints", ",".join(g.sname() for g in pk)])
     for d in d_o:
         run.violation(run_o.replay_path(d), "-optimize-grammar: df=%s gi=%d ii=%d" % (d["df"], d["gi"], d["ii"]))
@@ -2309,6 +2333,10 @@ def c09_idiom_groups(seed, n, gi0):
                 site = g.un("opt", site)
             elif w < 0.8:
                 site = g.un("and", site)
+            elif w < 0.9:           # ... as the guarded expression of a recovery operator (which opens no label scope at run time)
+                site = g.recover(site, g.lit([99]), ["la"])
+            elif w < 0.96:          # ... as the recovery expression itself, reached through a throw
+                site = g.recover(g.choice([g.lit([100]), g.throw("la")]), site, ["la"])
             items = [g.label(t1, nm), site, g.pred(False, "true")]
             if rng.random() < 0.3:
                 items = [g.recover(g.seq(items), g.lit([99]), ["la"])]
